@@ -249,7 +249,7 @@ def stage(ctx, reg=None, keys=None, text="unset", corpus=True):
     if text == "unset":
         text = translate(ctx)
     ser = wire.make_serializer()
-    reg = reg or wire.registry(ser)
+    reg = reg or wire.registry_for_harness(ctx, ser)
     r = ctx.rng("oldstyle")
     classes = tr_oldstyle.old_classes()
     N = 30 if ctx.quick else 300
